@@ -162,6 +162,110 @@ func vJSONOp(t []string) string {
 			return "error"
 		}
 		return vHex(out) + " " + vValid(out)
+	case "traces":
+		// json traces <run hex> <kind:duration:name hex,…>   kind r(egular) f(orce persist) s(ynthetics)
+		tr := NewTxnTraces()
+		if spec := vStr(t, 3); spec != "-" && spec != "" {
+			for i, e := range strings.Split(spec, ",") {
+				f := strings.Split(e, ":")
+				if len(f) != 3 {
+					continue
+				}
+				d, _ := strconv.ParseFloat(f[1], 64)
+				tt := &TxnTrace{MetricName: string(vUnhex(f[2])), RequestURI: "/" + string(vUnhex(f[2])), UnixTimestampMillis: float64(1000 + i), DurationMillis: d,
+					Data: JSONString(`[[0,{},{},[0,1,"ROOT",{},[]],{}]]`), GUID: fmt.Sprintf("g%d", i)}
+				switch f[0] {
+				case "f":
+					tt.ForcePersist = true
+				case "s":
+					tt.SyntheticsResourceID = "syn-" + string(vUnhex(f[2]))
+				}
+				if tr.IsKeeper(tt) {
+					tr.AddTxnTrace(tt)
+				}
+			}
+		}
+		out, err := tr.CollectorJSON(AgentRunID(vUnhex(vStr(t, 2))), false)
+		if err != nil {
+			return "error"
+		}
+		n := -1
+		var arr []json.RawMessage
+		if json.Unmarshal(out, &arr) == nil && len(arr) == 2 {
+			var items []json.RawMessage
+			if json.Unmarshal(arr[1], &items) == nil {
+				n = len(items)
+			}
+		}
+		return fmt.Sprintf("n=%d %s", n, vValid(out))
+	case "errors":
+		// json errors <run hex> <priority:data hex,…>   (data: the agent's error JSON)
+		eh := NewErrorHeap(20)
+		if spec := vStr(t, 3); spec != "-" && spec != "" {
+			for _, e := range strings.Split(spec, ",") {
+				f := strings.Split(e, ":")
+				if len(f) != 2 {
+					continue
+				}
+				p, _ := strconv.Atoi(f[0])
+				eh.AddError(p, vUnhex(f[1]))
+			}
+		}
+		out, err := eh.Data(AgentRunID(vUnhex(vStr(t, 2))), time.Unix(1, 0))
+		if err != nil {
+			return "error"
+		}
+		n := -1
+		var arr []json.RawMessage
+		if json.Unmarshal(out, &arr) == nil && len(arr) == 2 {
+			var items []json.RawMessage
+			if json.Unmarshal(arr[1], &items) == nil {
+				n = len(items)
+			}
+		}
+		return fmt.Sprintf("n=%d %s", n, vValid(out))
+	case "slowsqls":
+		// json slowsqls <id:max:query hex,…>
+		ss := NewSlowSQLs(10)
+		if spec := vStr(t, 2); spec != "-" && spec != "" {
+			for _, e := range strings.Split(spec, ",") {
+				f := strings.Split(e, ":")
+				if len(f) != 3 {
+					continue
+				}
+				id, _ := strconv.Atoi(f[0])
+				mx, _ := strconv.ParseUint(f[1], 10, 64)
+				q := string(vUnhex(f[2]))
+				ss.Observe(&SlowSQL{ID: SQLId(id), Count: 1, TotalMicros: mx, MinMicros: mx, MaxMicros: mx, MetricName: "Datastore/" + q, Query: q, TxnName: q,
+					TxnURL: "/" + q, Params: JSONString(`{"backtrace":["a","b"]}`)})
+			}
+		}
+		out, err := ss.CollectorJSON(false)
+		if err != nil {
+			return "error"
+		}
+		n := -1
+		var arr [][]json.RawMessage
+		if json.Unmarshal(out, &arr) == nil && len(arr) == 1 {
+			n = len(arr[0])
+		}
+		return fmt.Sprintf("n=%d %s", n, vValid(out))
+	case "connect":
+		// json connect name=<hex> host=<hex> dh=<hex> ver=<hex> lang=<hex> dk=<hex>
+		g := func(k string) string { v, _ := vKV(t, k); return string(vUnhex(v)) }
+		info := &AppInfo{License: "L", Appname: g("name"), AgentLanguage: g("lang"), AgentVersion: g("ver"), Hostname: g("host"), HostDisplayName: g("dh"),
+			DockerId: g("dk"), Environment: JSONString(`[["a","b"]]`), Labels: JSONString(`[{"label_type":"x","label_value":"y"}]`),
+			Settings: map[string]interface{}{"newrelic.appname": g("name"), "k": 1.5}}
+		out, err := EncodePayload(info.ConnectPayloadInternal(1, nil))
+		if err != nil {
+			return "error"
+		}
+		n := -1
+		var arr []json.RawMessage
+		if json.Unmarshal(out, &arr) == nil {
+			n = len(arr)
+		}
+		return fmt.Sprintf("n=%d %s", n, vValid(out))
 	case "pkgs":
 		p := NewPhpPackages()
 		p.SetPhpPackages(vUnhex(vStr(t, 2)))
